@@ -200,3 +200,80 @@ def substitute_path(pc, entries, src_vars, dst_vars):
 
 def anticommute(l1: str, l2: str) -> bool:
     return l1 != l2 and l1 in 'XYZ' and l2 in 'XYZ'
+
+
+def validate_paths_at(col, label, paths, loc_vars, coords, real_fn, conv, extra_sub=(), cap=20000):
+    """Translation validation of an exploration over a symbolic location: every concrete location of
+    `coords` (beyond `cap` path evaluations: a deterministic sample) is substituted into the path conditions;
+    exactly one path must hold there, and conv(path value, substitution) must equal real_fn(location) -- the
+    REAL function on an unshadowed object (same exception type if either raises).  A mismatch means the
+    encoding misrepresents the code: HarnessError (exit 2), never a verdict."""
+    import random
+    from .core import HarnessError, z3_and
+    locs = list(coords)
+    if len(locs) * max(1, len(paths)) > cap:
+        locs = random.Random(len(locs)).sample(locs, max(8, cap // max(1, len(paths))))
+    n_ok = 0
+    for loc in locs:
+        sub = [(v, z3.IntVal(int(x))) for v, x in zip(loc_vars, loc)] + list(extra_sub)
+        hit = []
+        for p in paths:
+            t = z3.simplify(z3.substitute(z3_and(list(p.pc)), *sub))
+            if z3.is_true(t):
+                hit.append(p)
+            elif not z3.is_false(t):
+                hit = None          # path condition depends on other symbols (draws, states): not comparable
+                break
+        if hit is None:
+            continue
+        if len(hit) != 1:
+            raise HarnessError(f'{label}: {len(hit)} paths hold at location {tuple(loc)} (expected exactly 1)')
+        p = hit[0]
+        try:
+            want, wexc = real_fn(tuple(loc)), None
+        except Exception as e:          # noqa
+            want, wexc = None, e
+        if p.exc is not None or wexc is not None:
+            if type(p.exc) is not type(wexc):
+                raise HarnessError(f'{label}: at {tuple(loc)} the symbolic path ends with {type(p.exc).__name__}, '
+                                   f'the real call with {type(wexc).__name__}: {wexc}')
+            n_ok += 1
+            continue
+        got = conv(p.value, sub)
+        if got != want:
+            raise HarnessError(f'{label}: at {tuple(loc)} the symbolic run gives {str(got)[:300]}, the real one '
+                               f'{str(want)[:300]}')
+        n_ok += 1
+    col.stats['encoding_validated_locations'] = col.stats.get('encoding_validated_locations', 0) + n_ok
+    return n_ok
+
+
+def concretise(x, sub):
+    """Python value of a proxy / z3 term / container after substituting `sub` (pairs)."""
+    from .core import SymInt, Bit, SymBool, SymReal
+    if isinstance(x, (SymInt, Bit, SymBool, SymReal)):
+        x = x.t
+    if isinstance(x, z3.ExprRef):
+        v = z3.simplify(z3.substitute(x, *sub)) if sub else z3.simplify(x)
+        if z3.is_true(v):
+            return True
+        if z3.is_false(v):
+            return False
+        if z3.is_int_value(v):
+            return v.as_long()
+        if z3.is_rational_value(v):
+            return float(v.numerator_as_long()) / float(v.denominator_as_long())
+        raise ValueError(f'not ground after substitution: {v}')
+    if isinstance(x, dict):
+        return {concretise(k, sub): concretise(v, sub) for k, v in x.items()}
+    if isinstance(x, (list, tuple)):
+        return type(x)(concretise(v, sub) for v in x)
+    if isinstance(x, np.ndarray):
+        return [concretise(v, sub) for v in x.reshape(-1).tolist()]
+    if isinstance(x, (np.integer,)):
+        return int(x)
+    if isinstance(x, (np.floating,)):
+        return float(x)
+    if isinstance(x, np.bool_):
+        return bool(x)
+    return x
